@@ -239,6 +239,7 @@ def setup_fp(name, state, other):
 def name_case(task):
     so, sn, kind, split, threads = task[:5]
     dot = len(task) > 5 and task[5]   # the set-up patch is a -p0 entry whose names are spelled ./name
+    rev = len(task) > 6 and task[6]   # the entry is marked -R and written the other way round: the names keep their roles (only a rename swaps them)
     d = wsweep.wdir()
     root = os.path.join(d, 'ws')
     files = {'keep': (b'k\n', 0o644)}
@@ -251,7 +252,9 @@ def name_case(task):
     def gitline(t, nm):
         return t if (not t or t.startswith(b'diff --git')) else b'diff --git a/' + nm + b' b/' + nm + b'\n' + t
     p0 = gitline(t_o, b'o') + gitline(t_n, b'n')
-    if kind == 'modify':
+    if kind == 'modify' and rev:
+        body = b'@@ -1,4 +1,4 @@\n l0\n-CHANGED\n+l1\n l2\n l3\n'
+    elif kind == 'modify':
         body = b'@@ -1,4 +1,4 @@\n l0\n-l1\n+CHANGED\n l2\n l3\n'
     elif kind == 'create':
         body = b'@@ -0,0 +1,2 @@\n+c0\n+c1\n'
@@ -287,7 +290,7 @@ def name_case(task):
         patches['p0.patch'] = p0
         series.append('p0.patch -p0' if dot else 'p0.patch')
     patches['p1.patch'] = p1
-    series.append('p1.patch')
+    series.append('p1.patch -R' if rev else 'p1.patch')
     ws.make_ws(root, files, patches, series)
     tr = os.path.join(d, 'trace')
     if split and p0:
@@ -296,7 +299,7 @@ def name_case(task):
     snap = ws.snapshot(root)
     got = {k: v[0] for k, v in ws.tree_of(snap).items()}
     out = {'evals': 1, 'violations': [], 'outcomes': {'target=%s:%s' % (target, 'applies' if ok else 'fails'): 1}, 'nontrivial': 1}
-    tags = wsweep.cls({'old:' + so, 'new:' + sn, kind, 'split' if split else 'one-push', 'threads>1' if threads > 1 else 'threads=1'} | ({'set-up-patch-spelled-dot-slash'} if dot else set()))
+    tags = wsweep.cls({'old:' + so, 'new:' + sn, kind, 'split' if split else 'one-push', 'threads>1' if threads > 1 else 'threads=1'} | ({'set-up-patch-spelled-dot-slash'} if dot else set()) | ({'entry-marked-R'} if rev else set()))
     w = lambda extra: dict({'kind': 'cli', 'files': {k: [common.b2s(v[0]), v[1]] for k, v in files.items()}, 'patches': {k: common.b2s(v) for k, v in patches.items()}, 'series': series,
                             'before': [{'args': ['1', '-q', '--backup', 'never'], 'threads': threads}] if (split and p0) else [], 'args': ['-a', '-q', '--backup', 'never'], 'threads': threads,
                             'series_desc': 'old name %s, new name %s, %s' % (so, sn, kind)}, **extra)
@@ -364,6 +367,8 @@ def run(tier, seed):
     # the same matrix with the set-up patch at -p0 and its names spelled ./o and ./n: "as left by earlier patches of the same run" whatever they called the file
     tasks2 += [(so, sn, kind, False, threads, True) for so in STATES for sn in STATES for kind in ('modify', 'create', 'delete') for threads in (1, 2)
                if so in ('created-earlier', 'deleted-earlier', 'renamed-away') or sn in ('created-earlier', 'deleted-earlier', 'renamed-away')]
+    # the same matrix for an entry marked -R (modifying entries): -R turns the hunks round, not the roles of the two names
+    tasks2 += [(so, sn, 'modify', split, threads, False, True) for so in STATES for sn in STATES for split in (False, True) for threads in (1, 2)]
     acc2 = wsweep.Acc(res)
     for i, r in enumerate(wsweep.pmap(name_case, tasks2)):
         if i % 59 == 0:
@@ -375,6 +380,6 @@ def run(tier, seed):
     cov['rule'] = ('(1) series lines: every spelling getopts accepts for -p0/-p1/-p2 (-pN, -p N, --strip=N, --strip N) alone and with -R/--reverse in either order, clustered -RpN, default -p1; between comment, '
                    'blank, whitespace-only lines, indented/tab-separated, followed by a trailing comment (also one that mentions options); strip counts that are no numbers (%s) are refused with nothing touched; target path depth 1..3; header forms where both / only the old / only the new name decide (same names, .orig-style, /dev/null on either side) x -p0..-p3; the patch names carry exactly N extra components and -R entries carry the inverse diff, so only the right '
                    'strip level and direction produce the expected tree. (2) existence matrix: old name x new name each in {on disk, created earlier this run, deleted earlier, renamed away, absent} x '
-                   'kind {modify, create, delete} x {one push, split pushes} x threads {1,2}; both files hold the same lines, so the hunk fits either and the tree shows which name was patched. Oracle: toy '
+                   'kind {modify, create, delete} x {one push, split pushes} x threads {1,2}, the modifying entries also marked -R (hunks written the other way round; the names keep their roles); both files hold the same lines, so the hunk fits either and the tree shows which name was patched. Oracle: toy '
                    'quilt rule - the old name if it currently exists, otherwise the new name. non-trivial = all matrix runs and non-default option runs') % ', '.join(BAD_STRIPS)
     return res
